@@ -157,7 +157,7 @@ def _policy(kind: str | None, attempts: int = 3) -> Any:
 
 
 def wf_fan(k: int, w: int, retry: str | None = None, fail_uids: tuple[int, ...] = (), fails: int = 1,
-           gate_fin: bool = False) -> type:
+           gate_fin: bool = False, stagger: float = 0.0) -> type:
     async def start(self, ctx, ev, inv):  # noqa: ANN001
         for i in range(k):
             ctx.send_event(Work(uid=i))
@@ -166,6 +166,10 @@ def wf_fan(k: int, w: int, retry: str | None = None, fail_uids: tuple[int, ...] 
     async def work(self, ctx, ev, inv):  # noqa: ANN001
         await gate(f"w{ev.uid}.{inv.retry.retry_number}")
         if ev.uid in fail_uids and inv.retry.retry_number < fails:
+            if stagger and ev.uid:
+                import asyncio as _aio
+
+                await _aio.sleep(stagger * ev.uid)  # failures (and so the retry deadlines) at different times
             raise RuntimeError(f"boom{ev.uid}")
         return Done(uid=ev.uid)
 
@@ -429,6 +433,10 @@ def catalog(tier: str) -> list[Spec]:
             sp.append(Spec(f"fan_retry(k={k},w={w},{retry})", {"k": k, "w": w, "retry": retry},
                            (lambda k=k, w=w, retry=retry: wf_fan(k, w, retry, fail_uids=(0, 1))),
                            min_concurrency=min(k, w), tags=("retry", retry)))
+    # three wake-ups pending at once: the workflow timeout and two retry delays that end at different times
+    sp.append(Spec("fan_retry_stagger_timeout(k=2,w=2)", {"k": 2, "w": 2, "timeout": 50.0},
+                   lambda: wf_fan(2, 2, "delay", fail_uids=(0, 1), stagger=0.5), wf_kw={"timeout": 50.0},
+                   max_dev=(4 if q else 6), tags=("retry", "delay", "timeout")))
     sp.append(Spec("fan_gatefin(k=3,w=3)", {}, lambda: wf_fan(3, 3, gate_fin=True), tags=("fan",),
                    max_dev=None if not q else 4))
     for w in (1, 2, 3):
